@@ -253,6 +253,9 @@ class ConstEval:
             r = self._call_repo(n, fn, args, dict(kwargs), local)
             if r is not None:
                 return r
+            r = self._call_pure(n, fn, args, dict(kwargs), local)
+            if r is not _NOFOLD:
+                return r
             if isinstance(n.func, ast.Attribute) and n.func.attr == "get" and args and is_const(args[0]):
                 base = self.ev(n.func.value, local)
                 if isinstance(base, dict) and is_const(list(base.keys())):
@@ -260,12 +263,17 @@ class ConstEval:
                         return base.get(args[0], args[1] if len(args) > 1 else None)
                     except TypeError:
                         pass
+            if last == "len" and len(args) == 1 and not kwargs and isinstance(args[0], (tuple, list, dict)) and \
+                    not any(isinstance(k_, Sym) and k_.text.startswith("**") for k_ in (args[0] if isinstance(args[0], dict) else ())):
+                return len(args[0])     # the length of a literal collection is known even if its elements are symbolic
             if last in ("int", "str", "len", "bool", "float") and len(args) >= 1 and not kwargs and all(is_const(a) for a in args):
                 try:
                     return {"int": int, "str": str, "len": len, "bool": bool, "float": float}[last](*[_num(a) if last != "len" else a for a in args])
                 except Exception:
                     pass
             return CallVal(fn, args, kwargs)
+        if isinstance(n, (ast.ListComp, ast.GeneratorExp, ast.SetComp)):
+            return self._comprehension(n, local)
         if isinstance(n, ast.JoinedStr):
             return Sym(src(n))
         if isinstance(n, ast.Subscript):
@@ -278,6 +286,95 @@ class ConstEval:
                 pass
             return Sym(src(n))
         return Sym(src(n))
+
+    # ---- constant folding of pure builtins / pure methods of constant receivers (no repository code involved)
+    _PURE_METHODS = {
+        bytes: {"count", "index", "find", "rfind", "startswith", "endswith", "lstrip", "rstrip", "strip", "lower", "upper",
+                "split", "partition", "rpartition", "decode", "hex", "replace", "join"},
+        str: {"count", "index", "find", "rfind", "startswith", "endswith", "lstrip", "rstrip", "strip", "lower", "upper",
+              "split", "partition", "rpartition", "encode", "replace", "join", "isdigit", "title"},
+        tuple: {"count", "index"},
+        list: {"count", "index"},
+        int: {"bit_length", "to_bytes"},
+    }
+    _PURE_BUILTINS = {"min": min, "max": max, "sum": sum, "any": any, "all": all, "sorted": sorted, "abs": abs,
+                      "tuple": tuple, "list": list, "bytes": bytes, "divmod": divmod, "ord": ord, "chr": chr}
+
+    def _call_pure(self, n: ast.Call, fn: str, args, kwargs, local):
+        if kwargs or not all(is_const(a) and not isinstance(a, (EnumVal, RecordVal, StructVal)) for a in args):
+            if not (fn == "next" and args and is_const(args[0])):
+                return _NOFOLD
+        try:
+            if isinstance(n.func, ast.Attribute):
+                base = self.ev(n.func.value, local)
+                for typ, names in self._PURE_METHODS.items():
+                    if type(base) is typ and n.func.attr in names:
+                        return getattr(base, n.func.attr)(*args)
+                return _NOFOLD
+            if isinstance(n.func, ast.Name) and n.func.id not in local:
+                name = n.func.id
+                if name in self._PURE_BUILTINS and args:
+                    return self._PURE_BUILTINS[name](*args)
+                if name == "reversed" and len(args) == 1 and isinstance(args[0], (tuple, list, bytes, str)):
+                    return tuple(reversed(args[0]))
+                if name == "enumerate" and args and isinstance(args[0], (tuple, list, bytes, str)):
+                    return tuple(enumerate(args[0], *args[1:]))
+                if name == "zip" and all(isinstance(a, (tuple, list, bytes, str)) for a in args):
+                    return tuple(zip(*args))
+                if name == "range" and all(isinstance(a, int) and not isinstance(a, bool) for a in args) and \
+                        len(range(*args)) <= 4096:
+                    return tuple(range(*args))
+                if name == "next" and args and isinstance(args[0], (tuple, list)):
+                    if args[0]:
+                        return args[0][0]
+                    if len(args) > 1:
+                        return args[1]
+        except Exception:
+            return _NOFOLD
+        return _NOFOLD
+
+    def _comprehension(self, n, local):
+        """list / set / generator comprehension over constant iterables -> tuple of values (Sym when not decidable)"""
+        results = []
+
+        def rec(i, env):
+            if i == len(n.generators):
+                results.append(self.ev(n.elt, env))
+                return True
+            g = n.generators[i]
+            if g.is_async:
+                return False
+            it = self.ev(g.iter, env)
+            if isinstance(it, (Sym, CallVal)) or not isinstance(it, (tuple, list, bytes, str, frozenset)):
+                return False
+            if len(it) > 4096:
+                return False
+            for item in it:
+                env2 = dict(env)
+                if isinstance(g.target, ast.Name):
+                    env2[g.target.id] = item
+                elif isinstance(g.target, ast.Tuple) and isinstance(item, (tuple, list)) and len(item) == len(g.target.elts) \
+                        and all(isinstance(t, ast.Name) for t in g.target.elts):
+                    for t, v in zip(g.target.elts, item):
+                        env2[t.id] = v
+                else:
+                    return False
+                keep = True
+                for cond in g.ifs:
+                    c = self.ev(cond, env2)
+                    if isinstance(c, (Sym, CallVal)):
+                        return False
+                    if not c:
+                        keep = False
+                        break
+                if keep and not rec(i + 1, env2):
+                    return False
+            return True
+        if not rec(0, dict(local)):
+            return Sym(src(n))
+        if any(isinstance(r, (Sym, CallVal)) for r in results):
+            return Sym(src(n))
+        return tuple(results)
 
     # ---- calls into the repository: record construction and small pure functions, evaluated by interpretation
     def _call_repo(self, n: ast.Call, fn: str, args, kwargs, local):
@@ -303,8 +400,14 @@ class ConstEval:
                     if isinstance(st, ast.AnnAssign) and isinstance(st.target, ast.Name) and st.value is not None \
                             and st.target.id in fields and st.target.id not in vals:
                         vals[st.target.id] = ConstEval(self.repo, ci.module).ev(st.value)
-                if set(vals) == set(fields) and all(is_const(v) for v in vals.values()):
-                    return RecordVal(ci.name, tuple((f, vals[f]) for f in fields))
+                is_nt = any(b.split(".")[-1] == "NamedTuple" for b in ci.base_names)
+                if set(vals) == set(fields) and (is_nt or all(is_const(v) for v in vals.values())):
+                    # fields of a NamedTuple row may stay symbolic (a spec object, a class): the record still answers
+                    # attribute access; other constructions stay calls unless fully constant
+                    try:
+                        return RecordVal(ci.name, tuple((f, vals[f]) for f in fields))
+                    except TypeError:
+                        return None
             return None
         if isinstance(func, ast.Attribute):
             # <record>.method(..) / <RepoClass>.classmethod(..)
@@ -516,6 +619,7 @@ def _binop(op, a, b):
 
 
 _NONE = None
+_NOFOLD = object()
 
 
 def is_const(v) -> bool:
